@@ -555,3 +555,388 @@ Proof.
     destruct r as [h t e]. unfold clear in *. unr. destruct W as (Hc & Hh & Ht).
     bd_le h t; rewrite ?clear_range_length in Hi; list_norm; crush; apply C; unfold dead; lia.
 Qed.
+
+Definition discard_lo (r : ring) (n : nat) : ring :=
+  mkRing (head r + n) (tail r) (clear_range zero (elems r) (head r) (head r + n)).
+
+Definition discard_hi (r : ring) (n : nat) : ring :=
+  mkRing (head r + n - cap r) (tail r)
+         (clear_range zero (clear_range zero (elems r) (head r) (cap r)) 0 (head r + n - cap r)).
+
+Lemma discard_eq (r : ring) n :
+  discard zero r n =
+  let m := Nat.min n (len r) in
+  if m =? len r then (clear zero r, m)
+  else if head r + m <? cap r then (discard_lo r m, m) else (discard_hi r m, m).
+Proof. reflexivity. Qed.
+
+Lemma discard_part_spec (r r' : ring) n :
+  wf r -> n < len r ->
+  (head r + n < cap r /\ r' = discard_lo r n) \/
+  (cap r <= head r + n /\ r' = discard_hi r n) ->
+  wf r' /\ abs r' = skipn n (abs r) /\ (clean zero r -> clean zero r').
+Proof.
+  intros W Hn Hr. pose proof (abs_length r W) as AL.
+  assert (HS : forall i, i < len r - n ->
+            nth i (skipn n (abs r)) zero =
+            nth ((head r + (n + i)) mod cap r) (elems r) zero).
+  { intros i Hi. rewrite nth_skipn'. apply abs_nth; [exact W | lia]. }
+  assert (HL : length (skipn n (abs r)) = len r - n) by (rewrite skipn_length; lia).
+  revert HS HL. generalize (skipn n (abs r)). intros q HS HL. clear AL.
+  assert (W' : wf r').
+  { destruct r as [h t e]. unfold discard_lo, discard_hi in Hr. unr.
+    destruct W as (Hc & Hh & Ht).
+    destruct Hr as [[Hlt ->]|[Hge ->]]; cbn [head tail elems]; list_norm; crush. }
+  assert (L' : len r' = len r - n).
+  { destruct r as [h t e]. unfold discard_lo, discard_hi in Hr. unr.
+    destruct W as (Hc & Hh & Ht).
+    destruct Hr as [[Hlt ->]|[Hge ->]]; cbn [head tail elems]; list_norm; crush. }
+  split; [exact W'|]. split.
+  - apply abs_ext; [exact W' | lia |].
+    intros i Hi. rewrite L' in Hi. rewrite HS by exact Hi.
+    clear HS HL q W' L'.
+    destruct r as [h t e]. unfold discard_lo, discard_hi in Hr. unr.
+    destruct W as (Hc & Hh & Ht).
+    destruct Hr as [[Hlt ->]|[Hge ->]]; cbn [head tail elems]; list_norm; crush.
+  - intros C. rewrite clean_iff in *. intros i Hi D. clear HS HL q W' L'.
+    destruct r as [h t e]. unfold discard_lo, discard_hi in Hr. unr.
+    destruct W as (Hc & Hh & Ht). unfold dead in D.
+    destruct Hr as [[Hlt ->]|[Hge ->]]; cbn [head tail elems] in *;
+      rewrite ?clear_range_length in Hi; list_norm; crush; apply C; unfold dead; lia.
+Qed.
+
+Lemma discard_spec (r : ring) n :
+  wf r ->
+  wf (fst (discard zero r n)) /\
+  abs (fst (discard zero r n)) = skipn n (abs r) /\
+  snd (discard zero r n) = Nat.min n (length (abs r)) /\
+  (clean zero r -> clean zero (fst (discard zero r n))).
+Proof.
+  intros W. pose proof (abs_length r W) as AL. rewrite discard_eq. rewrite AL.
+  cbv zeta.
+  destruct (Nat.eqb_spec (Nat.min n (len r)) (len r)) as [E|E]; cbn [fst snd].
+  - destruct (clear_spec r W) as (Wc & Ac & Cc).
+    split; [exact Wc|]. split; [|split; [reflexivity | exact Cc]].
+    rewrite Ac. symmetry. apply skipn_all2. lia.
+  - assert (Hn : n < len r) by lia.
+    replace (Nat.min n (len r)) with n by lia.
+    destruct (Nat.ltb_spec (head r + n) (cap r)) as [E2|E2]; cbn [fst snd].
+    + destruct (discard_part_spec r (discard_lo r n) n W Hn) as (W' & A' & C').
+      { left. split; [exact E2 | reflexivity]. }
+      split; [exact W'|]. split; [exact A'|]. split; [reflexivity | exact C'].
+    + destruct (discard_part_spec r (discard_hi r n) n W Hn) as (W' & A' & C').
+      { right. split; [exact E2 | reflexivity]. }
+      split; [exact W'|]. split; [exact A'|]. split; [reflexivity | exact C'].
+Qed.
+
+(* ---- iteration ---- *)
+
+Lemma visit_spec (f : @visitor A) : forall idxs seen e,
+  NoDup idxs -> (forall i, In i idxs -> i < length e) ->
+  length (visit zero f seen e idxs) = length e /\
+  map (fun i => nth i (visit zero f seen e idxs) zero) idxs =
+    q_visit f seen (map (fun i => nth i e zero) idxs) /\
+  (forall j, ~ In j idxs -> nth j (visit zero f seen e idxs) zero = nth j e zero).
+Proof.
+  induction idxs as [|i rest IH]; intros seen e ND B.
+  - simpl. split; [reflexivity|]. split; [reflexivity|]. intros j Hj. reflexivity.
+  - inversion ND as [|x l Hni ND' Ex]; subst x l.
+    assert (Bi : i < length e) by (apply B; left; reflexivity).
+    simpl visit. simpl map. simpl q_visit.
+    destruct (f seen (nth i e zero)) as [v' cont] eqn:Ef.
+    assert (Hrest : map (fun k => nth k (set_nth e i v') zero) rest =
+                    map (fun k => nth k e zero) rest).
+    { apply map_ext_in. intros k Hk. rewrite nth_set_nth.
+      destruct (Nat.eqb_spec k i) as [Hki|Hki]; [subst k; contradiction | reflexivity]. }
+    assert (Hi : nth i (set_nth e i v') zero = v').
+    { rewrite nth_set_nth, Nat.eqb_refl, (proj2 (Nat.ltb_lt _ _) Bi). reflexivity. }
+    assert (Hother : forall j, ~ In j (i :: rest) ->
+                       nth j (set_nth e i v') zero = nth j e zero).
+    { intros j Hj. rewrite nth_set_nth.
+      destruct (Nat.eqb_spec j i) as [Hji|Hji]; [|reflexivity].
+      exfalso. apply Hj. left. symmetry. exact Hji. }
+    destruct cont.
+    + destruct (IH (nth i e zero :: seen) (set_nth e i v') ND') as (L & M & U).
+      { intros k Hk. rewrite set_nth_length. apply B. right. exact Hk. }
+      rewrite set_nth_length in L. split; [exact L|]. split.
+      * rewrite (U i Hni), Hi. f_equal. rewrite M, Hrest. reflexivity.
+      * intros j Hj. rewrite U by (intros Hc; apply Hj; right; exact Hc).
+        apply Hother. exact Hj.
+    + split; [apply set_nth_length|]. split.
+      * rewrite Hi. f_equal. exact Hrest.
+      * exact Hother.
+Qed.
+
+Lemma fwd_order_NoDup (r : ring) : wf r -> NoDup (fwd_order r).
+Proof.
+  destruct r as [h t e]. unfold fwd_order. unr. intros (Hc & Hh & Ht).
+  bd_lt h t; [apply seq_NoDup|].
+  apply NoDup_app'; try apply seq_NoDup.
+  intros x Hx Hy. rewrite in_seq in Hx, Hy. lia.
+Qed.
+
+Lemma fwd_order_In (r : ring) i :
+  wf r -> head r <> tail r ->
+  (In i (fwd_order r) <-> i < cap r /\ ~ dead (head r) (tail r) i).
+Proof.
+  destruct r as [h t e]. unfold fwd_order, dead. unr. intros (Hc & Hh & Ht) Hne.
+  bd_lt h t; rewrite ?in_app_iff, ?in_seq; lia.
+Qed.
+
+Lemma fwd_order_abs (r : ring) :
+  wf r -> head r <> tail r ->
+  abs r = map (fun i => nth i (elems r) zero) (fwd_order r).
+Proof.
+  destruct r as [h t e]. unfold abs, fwd_order. unr. intros (Hc & Hh & Ht) Hne.
+  bd_lt h t.
+  - rewrite map_nth_seq by lia. bd_le h t; [|lia].
+    rewrite firstn_app, skipn_length.
+    replace (t - h - (length e - h)) with 0 by lia.
+    simpl. apply app_nil_r.
+  - bd_le h t; [lia|].
+    rewrite map_app, !map_nth_seq by lia.
+    rewrite firstn_app, skipn_length. simpl skipn.
+    rewrite !(firstn_all2 (skipn h e)) by (rewrite skipn_length; lia).
+    f_equal. f_equal. lia.
+Qed.
+
+Definition visited (r : ring) (f : @visitor A) (idxs : list nat) : ring :=
+  mkRing (head r) (tail r) (visit zero f [] (elems r) idxs).
+
+Lemma visited_spec (r : ring) f idxs :
+  wf r -> head r <> tail r -> NoDup idxs ->
+  (forall i, In i idxs <-> In i (fwd_order r)) ->
+  wf (visited r f idxs) /\
+  fwd_order (visited r f idxs) = fwd_order r /\
+  map (fun i => nth i (elems (visited r f idxs)) zero) idxs =
+    q_visit f [] (map (fun i => nth i (elems r) zero) idxs) /\
+  (clean zero r -> clean zero (visited r f idxs)).
+Proof.
+  intros W Hne ND HI.
+  assert (Hnot : forall i, i < cap r -> dead (head r) (tail r) i -> ~ In i idxs).
+  { intros i Hi D Hin. apply HI in Hin. apply fwd_order_In in Hin; try assumption.
+    destruct Hin as [_ Hin]. exact (Hin D). }
+  destruct (visit_spec f idxs [] (elems r) ND) as (L & M & U).
+  { intros i Hi. apply HI in Hi. apply fwd_order_In in Hi; try assumption. apply Hi. }
+  assert (Hcap : cap (visited r f idxs) = cap r) by exact L.
+  split. { unfold wf. rewrite Hcap. exact W. }
+  split. { unfold fwd_order. rewrite Hcap. reflexivity. }
+  split. { exact M. }
+  intros C. rewrite clean_iff in *. intros i Hi D. rewrite Hcap in Hi.
+  cbn [visited head tail elems] in *.
+  rewrite U by (apply Hnot; assumption). apply C; assumption.
+Qed.
+
+Lemma map_rev_eq {B C : Type} (g : B -> C) l X :
+  map g (rev l) = X -> map g l = rev X.
+Proof. intros H. rewrite <- H, map_rev, rev_involutive. reflexivity. Qed.
+
+Lemma foreach_spec (r : ring) f :
+  wf r ->
+  wf (foreach zero r f) /\ abs (foreach zero r f) = q_foreach (abs r) f /\
+  (clean zero r -> clean zero (foreach zero r f)).
+Proof.
+  intros W. unfold foreach. destruct (Nat.eqb_spec (len r) 0) as [L|L].
+  - split; [exact W|]. split; [|intros C; exact C].
+    rewrite (abs_nil r W L). reflexivity.
+  - assert (Hne : head r <> tail r) by (rewrite <- len_empty_iff; assumption).
+    fold (visited r f (fwd_order r)).
+    destruct (visited_spec r f (fwd_order r) W Hne (fwd_order_NoDup r W)
+                (fun i => iff_refl _)) as (W' & F' & M' & C').
+    split; [exact W'|]. split; [|exact C'].
+    rewrite (fwd_order_abs _ W' Hne), F', M'.
+    rewrite <- fwd_order_abs by assumption. reflexivity.
+Qed.
+
+Lemma foreach_rev_spec (r : ring) f :
+  wf r ->
+  wf (foreach_rev zero r f) /\ abs (foreach_rev zero r f) = q_foreach_rev (abs r) f /\
+  (clean zero r -> clean zero (foreach_rev zero r f)).
+Proof.
+  intros W. unfold foreach_rev. destruct (Nat.eqb_spec (len r) 0) as [L|L].
+  - split; [exact W|]. split; [|intros C; exact C].
+    rewrite (abs_nil r W L). reflexivity.
+  - assert (Hne : head r <> tail r) by (rewrite <- len_empty_iff; assumption).
+    fold (visited r f (rev (fwd_order r))).
+    destruct (visited_spec r f (rev (fwd_order r)) W Hne
+                (@NoDup_rev _ _ (fwd_order_NoDup r W))
+                (fun i => iff_sym (in_rev (fwd_order r) i))) as (W' & F' & M' & C').
+    split; [exact W'|]. split; [|exact C'].
+    rewrite (fwd_order_abs _ W' Hne), F'.
+    rewrite (map_rev_eq _ _ _ M'). rewrite map_rev.
+    rewrite <- fwd_order_abs by assumption. reflexivity.
+Qed.
+
+(* ---- one step, then histories ---- *)
+
+Lemma step_spec (r : ring) (o : op A) :
+  wf r ->
+  wf (fst (step zero r o)) /\
+  abs (fst (step zero r o)) = fst (q_step (abs r) o) /\
+  snd (step zero r o) = snd (q_step (abs r) o) /\
+  (clean zero r -> clean zero (fst (step zero r o))).
+Proof.
+  intros W. destruct o as [v| | |n| |f|f|]; cbn [step q_step].
+  - destruct (push_spec r v W) as (W' & A' & C'). cbn [fst snd].
+    split; [exact W'|]. split; [exact A'|]. split; [reflexivity | exact C'].
+  - destruct (pop_spec r W) as (W' & A' & C').
+    destruct (pop zero r) as [r' x]. destruct (q_pop (abs r)) as [q' y].
+    cbn [fst snd] in *. inversion A' as [[Ha Hx]].
+    split; [exact W'|]. split; [reflexivity|]. split; [reflexivity | exact C'].
+  - cbn [fst snd]. rewrite (peek_spec r W).
+    split; [exact W|]. split; [reflexivity|]. split; [reflexivity | intros C; exact C].
+  - destruct (discard_spec r n W) as (W' & A' & N' & C').
+    destruct (discard zero r n) as [r' k]. unfold q_discard. cbn [fst snd] in *.
+    split; [exact W'|]. split; [exact A'|]. split; [rewrite N'; reflexivity | exact C'].
+  - destruct (clear_spec r W) as (W' & A' & C'). cbn [fst snd].
+    split; [exact W'|]. split; [exact A'|]. split; [reflexivity | exact C'].
+  - destruct (foreach_spec r f W) as (W' & A' & C'). cbn [fst snd].
+    split; [exact W'|]. split; [exact A'|]. split; [reflexivity | exact C'].
+  - destruct (foreach_rev_spec r f W) as (W' & A' & C'). cbn [fst snd].
+    split; [exact W'|]. split; [exact A'|]. split; [reflexivity | exact C'].
+  - cbn [fst snd]. rewrite (abs_length r W).
+    split; [exact W|]. split; [reflexivity|]. split; [reflexivity | intros C; exact C].
+Qed.
+
+Lemma run_spec : forall (ops : list (op A)) (r : ring),
+  wf r ->
+  let '(r', outs) := run zero r ops in
+  let '(q', qouts) := q_run (abs r) ops in
+  wf r' /\ abs r' = q' /\ outs = qouts.
+Proof.
+  induction ops as [|o ops IH]; intros r W.
+  - simpl. split; [exact W|]. split; reflexivity.
+  - simpl run. simpl q_run.
+    destruct (step_spec r o W) as (W1 & A1 & O1 & _).
+    destruct (step zero r o) as [r1 x]. destruct (q_step (abs r) o) as [q1 y].
+    cbn [fst snd] in W1, A1, O1. subst q1 y.
+    specialize (IH r1 W1).
+    destruct (run zero r1 ops) as [r2 xs]. destruct (q_run (abs r1) ops) as [q2 ys].
+    destruct IH as (W2 & A2 & O2).
+    split; [exact W2|]. split; [exact A2|]. rewrite O2. reflexivity.
+Qed.
+
+Lemma run_clean : forall (ops : list (op A)) (r : ring),
+  wf r -> clean zero r -> clean zero (fst (run zero r ops)).
+Proof.
+  induction ops as [|o ops IH]; intros r W C.
+  - exact C.
+  - simpl run.
+    destruct (step_spec r o W) as (W1 & _ & _ & C1). specialize (C1 C).
+    destruct (step zero r o) as [r1 x]. cbn [fst snd] in W1, C1.
+    specialize (IH r1 W1 C1).
+    destruct (run zero r1 ops) as [r2 xs]. exact IH.
+Qed.
+
+(* ---- Len / MaxLen / IsEmpty / IsFull ---- *)
+
+Lemma len_facts (r : ring) :
+  wf r ->
+  len r = length (abs r) /\ max_len r = cap r - 1 /\ len r <= max_len r /\
+  (is_empty r = true <-> abs r = []) /\ (is_full r = true <-> len r = max_len r).
+Proof.
+  intros W. pose proof (abs_length r W) as AL. pose proof (len_lt r W) as LL.
+  pose proof (len_empty_iff r W) as LE.
+  split; [symmetry; exact AL|]. split; [reflexivity|].
+  split; [unfold max_len; lia|]. split.
+  - unfold is_empty. rewrite Nat.eqb_eq, <- LE, <- length_zero_iff_nil, AL. reflexivity.
+  - clear AL LL LE. destruct r as [h t e]. unr. destruct W as (Hc & Hh & Ht).
+    split; intros H; crush.
+Qed.
+
+(* ---- NewRingBuffer ---- *)
+
+Lemma new_ring_facts (size : nat) :
+  wf (new_ring zero size) /\ clean zero (new_ring zero size) /\
+  abs (new_ring zero size) = [] /\
+  cap (new_ring zero size) = Nat.max size (Z.to_nat c_RINGBUFFER_MIN).
+Proof.
+  unfold new_ring. rewrite ring_min_val.
+  set (s := if size <=? 8 then 8 else size).
+  assert (Hs : s = Nat.max size 8) by (subst s; destruct (Nat.leb_spec size 8); lia).
+  assert (Hcap : cap (mkRing 0 0 (repeat zero s)) = s) by apply repeat_length.
+  assert (W : wf (mkRing 0 0 (repeat zero s))).
+  { unfold wf. rewrite Hcap. cbn [head tail]. lia. }
+  split; [exact W|]. split; [|split].
+  - intros i Hi Hl. cbn [elems]. apply nth_repeat.
+  - apply abs_nil; [exact W | reflexivity].
+  - rewrite Hcap. exact Hs.
+Qed.
+
+(* ---- grow regimes ---- *)
+
+Lemma grow_facts (r : ring) :
+  wf r ->
+  wf (grow zero r) /\ abs (grow zero r) = abs r /\ head (grow zero r) = 0 /\
+  cap (grow zero r) = new_size (cap r) /\ cap r < cap (grow zero r) /\
+  (cap r < 8 -> cap (grow zero r) = 8) /\
+  (8 <= cap r < 1024 -> cap (grow zero r) = 2 * cap r) /\
+  (1024 <= cap r -> cap (grow zero r) = cap r + (cap r + 9) / 10).
+Proof.
+  intros W. pose proof (new_size_gt (cap r)) as Hgt.
+  split; [apply grow_wf; exact W|]. split; [apply grow_abs; exact W|].
+  split; [reflexivity|]. split; [apply grow_cap|].
+  rewrite grow_cap. split; [exact Hgt|].
+  destruct (new_size_spec (cap r)) as [[H E]|[[H E]|[H E]]]; rewrite E;
+    (split; [|split]); intros H'; lia.
+Qed.
+
+End RingProofs.
+
+(* ------------------------------------------------------------------------------------ *)
+(* the lemmas C20.v refers to                                                             *)
+
+Lemma ring_refines_queue :
+  forall (A : Type) (zero : A) (ops : list (op A)) (r : ring A),
+    wf r ->
+    let '(r', outs) := run zero r ops in
+    let '(q', qouts) := q_run (abs r) ops in
+    wf r' /\ abs r' = q' /\ outs = qouts.
+Proof. intros A zero ops r. apply run_spec. Qed.
+
+Lemma ring_len_facts :
+  forall (A : Type) (r : ring A), wf r ->
+    len r = length (abs r) /\ max_len r = cap r - 1 /\ len r <= max_len r /\
+    (is_empty r = true <-> abs r = []) /\ (is_full r = true <-> len r = max_len r).
+Proof. intros A r. apply len_facts. Qed.
+
+Lemma ring_no_retention :
+  forall (A : Type) (zero : A) (ops : list (op A)) (r : ring A),
+    wf r -> clean zero r -> clean zero (fst (run zero r ops)).
+Proof. intros A zero ops r. apply run_clean. Qed.
+
+Lemma ring_new_facts :
+  forall (A : Type) (zero : A) (size : nat),
+    let r := new_ring zero size in
+    wf r /\ clean zero r /\ abs r = [] /\ cap r = Nat.max size (Z.to_nat c_RINGBUFFER_MIN).
+Proof. intros A zero size. cbv zeta. apply new_ring_facts. Qed.
+
+Lemma ring_grow_facts :
+  forall (A : Type) (zero : A) (r : ring A), wf r ->
+    let g := grow zero r in
+    wf g /\ abs g = abs r /\ head g = 0 /\ cap g = new_size (cap r) /\ cap r < cap g /\
+    (cap r < 8 -> cap g = 8) /\
+    (8 <= cap r < 1024 -> cap g = 2 * cap r) /\
+    (1024 <= cap r -> cap g = cap r + (cap r + 9) / 10).
+Proof. intros A zero r W. cbv zeta. apply grow_facts. exact W. Qed.
+
+Lemma ring_wrapped_example :
+  let r := mkRing 3 2 [10; 11; 0; 7; 8; 9]%Z in
+  wf r /\ clean 0%Z r /\ abs r = [7; 8; 9; 10; 11]%Z /\ is_full r = true /\
+  abs (fst (run 0%Z r [OPush 12%Z; OPop; ODiscard 2])) = [10; 11; 12]%Z.
+Proof.
+  cbv zeta. split; [|split; [|split; [|split]]].
+  - unfold wf, cap. cbn [head tail elems length]. lia.
+  - intros i Hi Hl. unfold cap in Hi. cbn [elems length] in Hi.
+    do 6 (destruct i as [|i]; [first [reflexivity | discriminate Hl]|]). lia.
+  - vm_compute. reflexivity.
+  - vm_compute. reflexivity.
+  - vm_compute. reflexivity.
+Qed.
+
+Print Assumptions ring_refines_queue.
+Print Assumptions ring_len_facts.
+Print Assumptions ring_no_retention.
+Print Assumptions ring_new_facts.
+Print Assumptions ring_grow_facts.
+Print Assumptions ring_wrapped_example.
